@@ -614,6 +614,18 @@ def corpus(batch):
             return p
         both(c4)
 
+    # a local chain of 1100 links: in the network modes every stage of the resolution follows up to 32 local links and
+    # hands the rest to the next stage (one question-stack slot each), so ~32 x 32 links are the bound; this is beyond it
+    def c4b(u):
+        p = Parts("local-1100-chain")
+        P = "corp.internal."
+        names = ["c%d.%s" % (i, P) for i in range(1101)]
+        ops = [I(names[i], CNAME, cn(names[i + 1])) for i in range(1100)] + [I(names[1100], A, v4(0x0A04044C))]
+        p.zones = [{"apex": P, "soa": g.soa(P, 60), "ops": ops}]
+        p.questions = [(names[0], A), (names[200], A), (names[1000], A)]
+        return p
+    both(c4b)
+
     # upstream cycles: not through the question name, through it, self-loop, across two zones
     def c5(u):
         p = Parts("upstream-cycles")
@@ -666,9 +678,23 @@ def corpus(batch):
         add_rr(u, "portal." + P, CNAME, cn("a." + S), 120)
         add_rr(u, "portal2." + Q, CNAME, cn("a." + S), 120)
         p.zones = [{"apex": S, "soa": g.soa(S, 300), "ops": [I("a." + S, A, v4(0x0A020201))]}]
-        p.questions = [("a." + S, A), ("portal2." + Q, A), ("portal." + P, A)]
+        # (the last question repeats the third: by then the cache holds upstream's alias AND upstream's address)
+        p.questions = [("a." + S, A), ("portal2." + Q, A), ("portal." + P, A), ("portal." + P, A)]
         return p
     both(c8)
+
+    # the same through the CACHE: the alias and an upstream address for the owned name are cached beforehand
+    def c8c(u):
+        p = Parts("split-horizon-through-cache")
+        P = u.chain[-1]
+        S = "ent." + P
+        add_rr(u, "portal." + P, CNAME, cn("a." + S), 120)
+        p.zones = [{"apex": S, "soa": g.soa(S, 300), "ops": [I("a." + S, A, v4(0x0A020201))]}]
+        p.cache = [("portal." + P, CNAME, 120, cn("a." + S)), ("a." + S, A, 300, v4(0xC0000409)),
+                   ("kc." + CACHED, CNAME, 300, cn("portal." + P))]
+        p.questions = [("portal." + P, A), ("kc." + CACHED, A), ("a." + S, A), ("portal." + P, ANY)]
+        return p
+    both(c8c)
 
     # local zone -> cache -> upstream
     def c9(u):
@@ -711,30 +737,38 @@ def local_view(case_line):
     return g.parse_case("local R %s %s %s" % (t[4], t[5], t[6]))
 
 
-_FWD = {}
+_TABLES = {}
 
 
-def forwarder_answers(c):
-    """(question token) -> list of rr tokens: the answer section of what the forwarder says, decoded from the case's
-    table by the reference decoder"""
+def table_answers(c):
+    """(server ip token, question token) -> list of rr tokens: the answer section of every reply the case's table
+    holds, decoded by the reference decoder (vlib/wireref.py)"""
     from . import msgtok, wireref
     key = hash(c.table_tok)
-    got = _FWD.get(key)
+    got = _TABLES.get(key)
     if got is not None:
         return got
-    ip = c.forwarder().split("@")[0]
     got = {}
     if c.table_tok != "_":
         for e in c.table_tok.split("+"):
             ips, q, hx = e.split("=")
-            if ip in ips.split(","):
-                st, m = wireref.decode(bytes.fromhex(hx))
-                if st == "ok" and q not in got:
-                    got[q] = [msgtok.rrtok(r) for r in m[2]]
-    if len(_FWD) > 32:
-        _FWD.clear()
-    _FWD[key] = got
+            st, m = wireref.decode(bytes.fromhex(hx))
+            if st != "ok":
+                continue
+            ans = [msgtok.rrtok(r) for r in m[2]]
+            for ip in ips.split(","):
+                got.setdefault((ip, q), ans)           # the first entry for a key wins, as in the drivers
+    if len(_TABLES) > 8:
+        _TABLES.clear()
+    _TABLES[key] = got
     return got
+
+
+def reply_answers(c, e):
+    """the answer section of the table's reply to logged exchange `e` (None: no such entry, or not a question)"""
+    if e.qname is None:
+        return None
+    return table_answers(c).get((e.ip, tok.question(e.qname, e.qtype, e.qclass)))
 
 
 def kind_of(case_line, out):
